@@ -62,7 +62,15 @@ class SupportRemoteGetStateMeta(type):
                 has_remote = False
                 break
             if d.get('__getstate__'):
-                signature = inspect.signature(d.get('__getstate__'))
+                try:
+                    signature = inspect.signature(d.get('__getstate__'))
+                except (ValueError, TypeError):
+                    # no signature available (e.g. methods of builtin types like io.BytesIO),
+                    # such a method cannot take the "remote" argument
+                    allow_remote = False
+                    first_not_remote = base
+                    continue
+
                 param_names = [param.name for param in signature.parameters.values()]
                 param_kinds = [param.kind for param in signature.parameters.values()]
 
